@@ -4,6 +4,10 @@
    (find_line_intersection, point membership; C01).  [w] is the west end of the
    point-in-polygon ray (-180 times the coordinate scale).
 
+   Domain: exact arithmetic over Z (DESIGN section 3: the float code takes the same branches on
+   the integer grids the correspondence uses; the 1e-10 snapping is modelled, not verified);
+   ensure_edge_bounds is the identity (no edge spans more than 180 degrees of longitude).
+
    NOT claimed (DESIGN C02 "Not proved"): that the answer equals the planar set truth in general;
    the first-vertex fallback is not shown independent of the vertex order.  The D5 theorems at the
    end refute the set-truth reading on concrete inputs (known findings D5a/b/c). *)
@@ -52,6 +56,14 @@ Theorem C02_sweep_brute : forall ea eb,
   sweep hit ea eb = Ok (existsb (fun a => existsb (fun b => hit a b) eb) ea).
 Proof. exact sweep_hit_brute. Qed.
 Print Assumptions C02_sweep_brute.
+
+(* ... in planar terms: True exactly when an a-edge and a b-edge are not parallel and share a point *)
+Theorem C02_sweep_meaning : forall ea eb,
+  sweep hit ea eb = Ok true <->
+  exists a b, In a ea /\ In b eb /\ nonparallel a b /\
+    exists xn yn dv, 0 < dv /\ on_seg_q a xn yn dv /\ on_seg_q b xn yn dv.
+Proof. exact sweep_meaning. Qed.
+Print Assumptions C02_sweep_meaning.
 
 Theorem C02_sweep_never_err : forall ea eb, exists r, sweep hit ea eb = Ok r.
 Proof. exact sweep_hit_never_err. Qed.
